@@ -74,10 +74,14 @@ def run(R):
     R.rule("C13-R4", "memoised term resolution depends on nothing but its key: where a loader caches the expansion of a token (map lookup, "
                      "else compute and insert), every piece of loader state the computation reads (the prefix table) is either part of "
                      "the key or never written while the cache lives - or the cache is cleared where that state changes")
+    R.rule("C13-R5", "the line loaders' term cleaners agree on literals: clean_ntriples_term and clean_turtle_term both decode a quoted literal "
+                     "with decode_ntriples_literal and treat what follows the closing quote alike - nothing, a datatype (`^^`) and a language "
+                     "tag (`@`) - so the same triple written in N-Triples and in Turtle is stored identically")
     r1(R)
     r2(R)
     r3(R)
     r4(R)
+    r5(R)
 
 
 def shared_dictionary(b, fam, prog, root_a, root_b):
@@ -438,3 +442,35 @@ def _map_identity(x, op):
     if nm is None:
         return None
     return ("local", "capture", nm)
+
+
+def r5(R):
+    prog = R.prog
+    shapes = {}
+    for nm in ("clean_ntriples_term", "clean_turtle_term"):
+        b = R.body("C13-R5", "SparqlDatabase::" + nm, crate="kolibrie")
+        if b is None:
+            continue
+        R.saw(b)
+        dec = [c for c in b.calls() if c.name() == "decode_ntriples_literal"]
+        tests = set()
+        if dec:
+            # tests applied to the remainder component of the decoder's result
+            for x in prog.family(b.key):
+                for c in x.calls():
+                    if c.name() == "is_empty" and c.args:
+                        tests.add("empty")
+                    if c.name() == "starts_with" and len(c.args) >= 2:
+                        lit = const_text(c.args[1])
+                        if lit in ("^^", "@"):
+                            tests.add("suffix:" + lit)
+        shapes[nm] = (bool(dec), frozenset(tests))
+        R.ob("C13-R5", "decodes:" + nm, "%s decodes literals with decode_ntriples_literal" % nm, bool(dec), where=b.where())
+    if len(shapes) == 2:
+        a, t = shapes["clean_ntriples_term"], shapes["clean_turtle_term"]
+        need = {"empty", "suffix:^^", "suffix:@"}
+        ok = a[1] >= need and t[1] >= need
+        R.ob("C13-R5", "suffixes-agree", "both cleaners handle a bare literal, a datatype suffix and a language tag (N-Triples: %s, Turtle: %s)"
+             % (sorted(a[1]), sorted(t[1])), ok, where=prog.one("SparqlDatabase::clean_turtle_term", crate="kolibrie").where(),
+             detail=None if ok else "a literal with a language tag or a datatype falls through to the quote-trimming fallback in one loader: `\"chat\"@fr` is stored as "
+             "`chat\"@fr` by the Turtle loader and as `chat@fr` by the N-Triples loader")
